@@ -143,9 +143,9 @@ def run(ctx):
     common.proof_side(ctx, THEOREMS, modules=["QProps.C17", "QProps.C17b"])
     drv = common.Driver()
     rng = ctx.rng
-    n_par = 250 if ctx.tier == "quick" else 4000
-    n_ten = 120 if ctx.tier == "quick" else 2000
-    n_bias = 40 if ctx.tier == "quick" else 600
+    n_par = 700 if ctx.tier == "quick" else 4000
+    n_ten = 350 if ctx.tier == "quick" else 2000
+    n_bias = 120 if ctx.tier == "quick" else 600
     combos = [(b, s) for b in (4, 8, 16) for s in (True, False)]
     # corpus first
     for f in sorted((common.CORPUS / "C17").glob("*.json")) if (common.CORPUS / "C17").exists() else []:
